@@ -1572,16 +1572,23 @@ func randConc(r *vh.Rand) Case {
 	return c
 }
 
-// randMany: 8..20 values (binary search over many buckets, long shared buckets).
+// randMany: 8..40 values (binary search over many buckets, long shared buckets).
 func randMany(r *vh.Rand) Case {
 	c, _ := randCase(r, r.Chance(1, 4), false)
 	c.Family, c.Late, c.Ops = "many", nil, nil
-	n := 8 + r.Intn(13)
+	n := 8 + r.Intn(33) // up to 40 values: more than 16 buckets for the binary search
+	if r.Chance(2, 3) {
+		n = 24 + r.Intn(17)
+	}
 	spread := int64(1 + r.Intn(4))
+	dense := r.Chance(1, 3)
 	for i := 0; i < n; i++ {
 		v := Val{K: "int", I: int64(i), Repeat: []int32{0, 1, 2, 3}[r.Intn(4)]}
-		v.T = int64(r.Intn(n)) * spread
-		if r.Chance(1, 4) {
+		v.T = int64(r.Intn(3*n)) * spread // mostly distinct timestamps
+		if dense {
+			v.T = int64(r.Intn(n/2+1)) * spread
+		}
+		if r.Chance(1, 6) {
 			v.T = int64(r.Intn(3))
 		}
 		v.TMin = int64(r.Intn(3))
@@ -1595,7 +1602,7 @@ func randMany(r *vh.Rand) Case {
 		c.Ops = append(c.Ops, v)
 	}
 	c.Delay = false
-	c.Steps = 20 + r.Intn(25)
+	c.Steps = 30 + r.Intn(30)
 	return c
 }
 
@@ -1666,6 +1673,12 @@ type emitter struct {
 }
 
 func (e *emitter) add(c Case, what string) {
+	if hangs >= 3 && (c.Client || c.Fixed != nil) {
+		// three streams already hung on this tree (each may have left a spinning
+		// goroutine behind); the witnesses are recorded, stop feeding it
+		e.meta.Hist("skipped-after-hangs")
+		return
+	}
 	if observe(&c) {
 		e.meta.Hist("config-mutated")
 	}
@@ -1731,7 +1744,7 @@ func main() {
 	if devnull != nil {
 		os.Stderr = devnull // glog of fake/gnmi (log.Errorf on every stream end)
 	}
-	meta := vh.NewMeta("corpus cases; seeded random configurations of 0..5 values of every kind (int/uint/double/string/string-list/bool/sync/delete) with range, list (random or rotating) or no distribution, value deltas, repeat in {-1,0,1,2,3,5}, shared and distinct small initial timestamps, timestamp deltas 0..6 (occasionally up to 2^45), global and per-value seeds (shared, equal, distinct), with and without the injected sync; each run for 6..35 steps through queue.New/Add/Next and through fake/gnmi Client.Run; global and per-value seeds are drawn from boundary seeds (-1, -7919, MinInt64, MaxInt64, 1, 2^31-1, 2^31, ...), random negative, random positive and small ones; an 'edge' family adds one documented error shape or one sign/zero/one/extreme variant of a numeric field (timestamp, ts deltas, repeat, seed, int/uint/double range bounds, value, value deltas, list length 0/1/2) per case; a 'poll' family runs finite configurations through one Client in POLL mode (two passes from the same configuration object, compared with each other and with a STREAM run); every generator of a case is built from the SAME configuration object (three in a row in the queue/client families) and the configuration is compared before/after; a 'fixed' family drives FixedQueue through Client.Run with generators built from prefixes of one backing array ([n,n,n], [n,k,n], [k,k,k], [k,n,k]); explicit sync values 0..2 occur with DisableSync=false at any position; the queue family also reads Latest() after the run, calls Next twice more after exhaustion and, in a fifth of the cases, Adds one more value between two Next calls; a sixth of the small-timestamp cases run with delay/enable_delay on; a 'many' family has 8..20 values (long bucket lists); a 'conc' family drains a finite configuration with four goroutines and compares the multiset with the sequential run; fixed generators alternately subscribe with a prefix target and the configured responses are compared before/after; a 'draws' family calls Int63n/Intn/Float64 of a real rand.Rand directly with moduli that make the rejection loops run (validation of the math/rand port). distinct = distinct configuration+seed+steps; non-trivial = at least 3 values emitted")
+	meta := vh.NewMeta("corpus cases; seeded random configurations of 0..5 values of every kind (int/uint/double/string/string-list/bool/sync/delete) with range, list (random or rotating) or no distribution, value deltas, repeat in {-1,0,1,2,3,5}, shared and distinct small initial timestamps, timestamp deltas 0..6 (occasionally up to 2^45), global and per-value seeds (shared, equal, distinct), with and without the injected sync; each run for 6..35 steps through queue.New/Add/Next and through fake/gnmi Client.Run; global and per-value seeds are drawn from boundary seeds (-1, -7919, MinInt64, MaxInt64, 1, 2^31-1, 2^31, ...), random negative, random positive and small ones; an 'edge' family adds one documented error shape or one sign/zero/one/extreme variant of a numeric field (timestamp, ts deltas, repeat, seed, int/uint/double range bounds, value, value deltas, list length 0/1/2) per case; a 'poll' family runs finite configurations through one Client in POLL mode (two passes from the same configuration object, compared with each other and with a STREAM run); every generator of a case is built from the SAME configuration object (three in a row in the queue/client families) and the configuration is compared before/after; a 'fixed' family drives FixedQueue through Client.Run with generators built from prefixes of one backing array ([n,n,n], [n,k,n], [k,k,k], [k,n,k]); explicit sync values 0..2 occur with DisableSync=false at any position; the queue family also reads Latest() after the run, calls Next twice more after exhaustion and, in a fifth of the cases, Adds one more value between two Next calls; a sixth of the small-timestamp cases run with delay/enable_delay on; a 'many' family has 8..40 values (up to ~35 buckets, long shared buckets); a 'conc' family drains a finite configuration with four goroutines and compares the multiset with the sequential run; fixed generators alternately subscribe with a prefix target and the configured responses are compared before/after; a 'draws' family calls Int63n/Intn/Float64 of a real rand.Rand directly with moduli that make the rejection loops run (validation of the math/rand port). distinct = distinct configuration+seed+steps; non-trivial = at least 3 values emitted")
 	e := &emitter{dir: o.Out, cf: vh.NewCaseFile(), meta: meta, limit: 400}
 
 	if o.Replay != "" {
@@ -1765,7 +1778,7 @@ func main() {
 
 	r := vh.NewRand(o.Seed)
 	nq, nc, ne, nd, np, nf := 1300, 700, 800, 120, 200, 250
-	nm, nx := 150, 150
+	nm, nx := 300, 150
 	if o.Thorough() {
 		nq, nc, ne, nd, np, nf = 18000, 8000, 12000, 3000, 3000, 3000
 		nm, nx = 2000, 2000
